@@ -444,10 +444,8 @@ def check(chk):
     chk.require('C04.rows', 60)
     # ResultMessage.recv dispatch
     rv, _ = interp0.resolve_method(rm, 'recv')
-    disp = {}
-    for n in body_walk(rv):
-        if isinstance(n, ast.If) and isinstance(n.test, ast.Compare) and src(n.test.left) == 'self.kind':
-            disp[src(n.test.comparators[0])] = ' '.join(src(s) for s in n.body)[:80]
+    from ..sem import dispatch_table
+    disp = dict((k, ' '.join(src(n.ast) for n in nodes)[:80]) for k, nodes in dispatch_table(rv, 'self.kind').items())
     wantd = {'RESULT_KIND_ROWS': 'recv_results_rows', 'RESULT_KIND_SET_KEYSPACE': 'read_string', 'RESULT_KIND_PREPARED': 'recv_results_prepared',
              'RESULT_KIND_SCHEMA_CHANGE': 'recv_results_schema_change', 'RESULT_KIND_VOID': 'return'}
     for k, frag in wantd.items():
